@@ -212,3 +212,15 @@ class BadRepr:
 
   def __repr__(self):
     raise self.exc_type('repr failed')
+
+
+def eqnode(x='D', y='D'):
+  return vfx.rec('eqnode', locals())
+
+
+def eqnode_b(x='D', y='D'):
+  return vfx.rec('eqnode_b', locals())
+
+
+def eqpos(p0='D', /, a='D', *va, k='D', **kw):
+  return vfx.rec('eqpos', locals())
